@@ -57,7 +57,7 @@ mod verif_c01 {
         ($name:ident, $len:expr) => {
             /// char round trip, all scalar values whose UTF-8 form has this length
             #[kani::proof]
-            #[kani::unwind(12)]
+            #[kani::unwind(7)]
             fn $name() {
                 let v: char = kani::any();
                 kani::assume(v.len_utf8() == $len);
@@ -102,7 +102,7 @@ mod verif_c01 {
 
     /// str / bytes / struct with borrowed fields; lengths <= 3 (input-length bound)
     #[kani::proof]
-    #[kani::unwind(12)]
+    #[kani::unwind(7)]
     fn rt_borrowed() {
         let sb: [u8; 3] = kani::any();
         let sl: usize = kani::any();
